@@ -755,12 +755,14 @@ static std::string run_kop(const std::vector<std::string>& a)
   }
   if (op == "k.etype")
   {
+    if (!k_exp[I(2)]) return "{\"r\":\"noexpr\"}";      /* the parse before failed: not a defined call */
     bloc_type t = bloc_expression_type(k_ctx[I(1)], k_exp[I(2)]);
     return "{\"r\":\"ok\",\"major\":" + std::to_string((int)t.major) + ",\"ndim\":" + std::to_string(t.ndim) + "}";
   }
   if (op == "k.eval")
   {
     int c = I(1), e = I(2), l = I(3);
+    if (!k_exp[e]) return "{\"r\":\"noexpr\"}";
     k_lib[l] = bloc_evaluate_expression(k_ctx[c], k_exp[e]);
     std::string er = k_err();
     return "{\"r\":\"ok\"," + er + ",\"val\":" + k_inspect(k_lib[l]) + "}";
